@@ -1,8 +1,9 @@
 #!/bin/sh
-# usage: tools/seed_regress.sh [out]  — runs every seeded change through its property's check (sequential; ~1 min each)
-out=${1:-/tmp/seed_regress.log}; : > $out
+# usage: tools/seed_regress.sh [out] [from-seed-id]  — runs every seeded change through its property's check (sequential; ~1 min each)
+out=${1:-/tmp/seed_regress.log}; from=${2:-C00}; [ "$from" = C00 ] && : > $out
 for d in /verif/seeded/*/; do
   s=$(basename $d); p=${s%%-*}
+  [ "$s" \< "$from" ] && continue
   r=$(/verif/tools/seedtest.sh $d/patch.diff $p 2>&1 | grep -E "VIOLATION|OK property|INFRA|does not apply" | head -1)
   echo "$s: $r" >> $out
 done
